@@ -30,11 +30,13 @@ MANIFEST_ENTRY = {
             "invocations and configurations (models of the rule modules, each compared with its module on the facts of the resolved "
             "library): the diagnostics of the per-declaration rules (P0017, P0011, P0029) are those of the parts, in order; a "
             "constant without value, a non-constant external of a constant global and a unit with a bad invocation are reported "
-            "whatever accompanies them. "
+            "whatever accompanies them; a reference to an undeclared type is reported whatever else the library holds, and two "
+            "declarations of one type or function block name are diagnosed (P0020), never collapsed (model of the late-bound type "
+            "transformation, compared with it on the type facts). "
             "For the whole pipeline this is tied by search: each fault kind is placed at every position among "
             "valid companions, in every file order, with and without companions reusing its name.",
-    "note": "Trusted: Coq kernel, extraction + driver, harness ops project / analyze / facts, the ironplcc binary runner. The late-bound "
-            "transformations (undeclared types) are not modelled. No axioms.",
+    "note": "Trusted: Coq kernel, extraction + driver, harness ops project / analyze / facts / latebound, the ironplcc binary runner. Of the "
+            "late-bound transformations only the type-initializer one (undeclared and duplicate type names) is modelled. No axioms.",
 }
 TRUSTED = [
     "Coq 8.16.1 kernel; vm_compute only in the Examples",
@@ -166,6 +168,7 @@ def search(run, info):
     sc_n, sc_bad = scope_corr.check(run, [[(f[0], bytes.fromhex(f[1]).decode("utf-8")) for f in c["files"]] for c in cases[::step]], info, "c03")
     # ... and the other rule visitors against their Coq models (facts of the resolved library), on the same sample
     rl_n, rl_bad = rules_corr.check(run, [[(f[0], bytes.fromhex(f[1]).decode("utf-8")) for f in c["files"]] for c in cases[::step]], info, "c03")
+    ty_n, ty_bad = rules_corr.check_types(run, [[(f[0], bytes.fromhex(f[1]).decode("utf-8")) for f in c["files"]] for c in cases[::step]], info, "c03")
     tab = {}
     for i, ((code, what, fl, layout), r) in enumerate(zip(meta, res)):
         run.count((code, tuple(fl)), True, "%s:%s" % (code, layout))
